@@ -8,7 +8,12 @@ A *history* is a list of ops executed on ONE sandbox (fresh report at the start)
    "code": <student file, for run>, "expr": <expression, for eval>,
    "helper": <source of a second student file helper.py, for run, or absent>,
    "nested": bool - the executed code imports helper.py (Sandbox._import re-enters the tracer) before it ends,
-   "term": ["N"] | ["R", desc] | ["C", desc], "shape": <tag naming the kind of program>}
+   "term": ["N"] | ["R", desc] | ["C", desc], "shape": <tag naming the kind of program>,
+   optional: "inputs": [str...] queued for this execution, "inputs_via": "set" (set_input before) | "param"
+   (run(inputs=) / call(inputs=)); "argsrc": [python source of each positional argument of call()],
+   "kwargsrc": {name: source}; "group": "start" | "stop" | "both" (Sandbox.start/stop_grouping_context around
+   this op, as commands.CommandBlock does); "fmt": "html" | "text" on the FIRST op = formatter of the report;
+   "size": {"dim", "n"} what was made large (see sandboxexec_sizes.py)}
 and desc = {"cls","isException","isSystemExit","isKeyError","hazards":[...],"synLine":int|None,
             "frames":[[kind,line]...]}   (kind S student / I instructor / P pedal / L library)
 The descriptor is written down BY CONSTRUCTION of the program (and, for compile failures, from CPython's own
@@ -23,8 +28,24 @@ import tempfile
 import time
 import unittest.mock
 
-# pedal's coverage tracer calls coverage.save(): keep its data file out of the working directory
-os.environ.setdefault("COVERAGE_FILE", os.path.join(tempfile.gettempdir(), "verif_sandboxexec.coverage"))
+# pedal's coverage tracer calls coverage.save(): keep its data file out of the working directory, and private to
+# this process (two checks running at the same time on one shared sqlite file made coverage raise DataError /
+# OperationalError inside the traced execution - a false alarm of the harness, not of pedal)
+import atexit  # noqa: E402
+
+_COVERAGE_FILE = os.path.join(tempfile.gettempdir(), "verif_sandboxexec.%d.coverage" % os.getpid())
+os.environ["COVERAGE_FILE"] = _COVERAGE_FILE
+
+
+def _remove_coverage_file():
+    for suffix in ("", "-journal", "-wal", "-shm"):
+        try:
+            os.remove(_COVERAGE_FILE + suffix)
+        except OSError:
+            pass
+
+
+atexit.register(_remove_coverage_file)
 
 from common import CorrResult, Failure, enc_bool, enc_str, dec_str, use_repo
 
@@ -284,7 +305,7 @@ def program_from_snippet(rng, sn, in_function, nest=None):
             lines = pre + imp + ["print('not reached')"]
             at = len(pre) + 1
         else:
-            lines = pre + ["def f(*args):"] + ["    " + imp[0], "    return 1"]
+            lines = pre + ["def f(*args, **kwargs):"] + ["    " + imp[0], "    return 1"]
             at = len(pre) + 2
         # the import statement, pedal's mocked __import__, Sandbox._import, then the helper's own frames
         frames = [["S", at], ["P", 0], ["P", 0]] + inner
@@ -296,7 +317,7 @@ def program_from_snippet(rng, sn, in_function, nest=None):
             base = len(pre) + len(imp)
         else:
             body = ["    " + l for l in imp + sn["lines"]]
-            lines = pre + ["def f(*args):"] + body + ["    return 1"]
+            lines = pre + ["def f(*args, **kwargs):"] + body + ["    return 1"]
             base = len(pre) + 1 + len(imp)
         frames = [["S", base + sn["fail_at"] + 1]] + [["S", base + i + 1] for i in sn["inner"]]
     frames += [[k, 0] for k in sn["tail"]]
@@ -312,6 +333,9 @@ def gen_ops_for_snippet(rng, sn, entry, style, inject, nest=None):
     extra = {}
     if nest:
         extra["nested"] = True
+    for key in ("inputs", "size", "keep_main", "detail"):
+        if sn.get(key) is not None:
+            extra[key] = sn[key]
     if sn["shape"] == "recursion":
         # At the recursion limit CPython cannot call a Python-level trace function any more and silently
         # removes it - that is the interpreter, not pedal.  So no trace function is pre-installed for these
@@ -338,7 +362,8 @@ def gen_ops_for_snippet(rng, sn, entry, style, inject, nest=None):
     return [setup, op]
 
 
-def gen_history(rng, snippets, *, max_ops=6, inject_rate=0.06, styles=STYLES):
+def gen_history(rng, snippets, *, max_ops=6, inject_rate=0.06, styles=STYLES, sized=None):
+    """`sized`: the snippets of the size dimension (sandboxexec_sizes), mixed into a quarter of the failing ops."""
     ops = []
     n = rng.randint(1, max_ops)
     while len(ops) < n:
@@ -365,16 +390,18 @@ def gen_history(rng, snippets, *, max_ops=6, inject_rate=0.06, styles=STYLES):
         elif r < 0.40:
             # a successful call / evaluate
             ops.append({"entry": "run", "style": rng.choice(STYLES[:3]), "inject": False,
-                        "code": "def f(*args):\n    return 7\n", "term": ["N"], "shape": "defs"})
+                        "code": "def f(*args, **kwargs):\n    return 7\n", "term": ["N"], "shape": "defs"})
             e = rng.choice(["call", "eval"])
             op = {"entry": e, "style": style, "inject": inject, "term": ["N"], "shape": "ok-" + e}
             if e == "eval":
                 op["expr"] = "f() + 1"
             ops.append(op)
         else:
-            sn = rng.choice(snippets)
+            sn = rng.choice(sized) if sized and rng.random() < 0.25 else rng.choice(snippets)
             entry = rng.choice(["run", "run", "run", "call", "eval"])
             nest = rng.choice([None, None, None, "before", "inside"])
+            if sn.get("run_only"):
+                entry, nest = "run", None
             ops.extend(gen_ops_for_snippet(rng, sn, entry, style, inject, nest))
     return vary(rng, ops)
 
@@ -388,7 +415,18 @@ def vary(rng, ops, force=None):
     using the submission of the preceding run), spelling of run (bare / by file name / code + file name),
     call with or without arguments."""
     main = force["main"] if force else (rng.choice(OTHER_MAIN_FILES) if rng.random() < 0.3 else MAIN_FILE)
+    if any(op.get("keep_main") for op in ops):
+        main = MAIN_FILE
+    if force and "fmt" in force:
+        fmt = force["fmt"]
+    else:
+        fmt = rng.choice([None, None, None, None, None, "html", "html", "text"])
+    if fmt and ops:
+        ops[0]["fmt"] = fmt
     for op in ops:
+        if op.get("inputs") is not None and op["entry"] in ("run", "call"):
+            via = force.get("inputs_via") if force else None
+            op["inputs_via"] = via or rng.choice(["set", "param"])
         if op["entry"] == "run":
             if main != MAIN_FILE:
                 op["main"] = main
@@ -397,7 +435,7 @@ def vary(rng, ops, force=None):
                 op["spell"] = spell
         elif op["entry"] == "call":
             args = force["args"] if force else (rng.choice(CALL_ARGS) if rng.random() < 0.4 else None)
-            if args is not None:
+            if args is not None and "argsrc" not in op:
                 op["args"] = args
     return ops
 
@@ -615,6 +653,11 @@ def run_history(ops):
     contextualize_report("", filename=MAIN_FILE)
     sb = commands.get_sandbox()
     obs = []
+    old_format = MAIN_REPORT.format
+    fmt = ops[0].get("fmt") if ops else None
+    if fmt:
+        from pedal.core import formatting
+        MAIN_REPORT.set_formatter({"html": formatting.HtmlFormatter, "text": formatting.TextFormatter}[fmt](MAIN_REPORT))
     try:
         for op in ops:
             main = op.get("main", MAIN_FILE)
@@ -629,6 +672,16 @@ def run_history(ops):
             sb = commands.get_sandbox()
             sb.tracer_style = op["style"]
             n_before = len(MAIN_REPORT.feedback)
+            kw = {}
+            if op.get("inputs") is not None:
+                if op.get("inputs_via") == "param" and op["entry"] in ("run", "call"):
+                    kw["inputs"] = list(op["inputs"])
+                else:
+                    commands.set_input(list(op["inputs"]))
+            call_args = [eval(src, {}) for src in op["argsrc"]] if "argsrc" in op else op.get("args", [])
+            call_kwargs = {k: eval(src, {}) for k, src in op.get("kwargsrc", {}).items()}
+            if op.get("group") in ("start", "both"):
+                sb.start_grouping_context()
             sys.settrace(_dummy_trace if op.get("pretrace", True) else None)
             before = Snapshot()
             escaped = None
@@ -642,13 +695,15 @@ def run_history(ops):
                     if op["entry"] == "run":
                         spell = op.get("spell", "bare")
                         if spell == "explicit":
-                            ret = commands.run(op["code"], filename=main)
+                            ret = commands.run(op["code"], filename=main, **kw)
                         elif spell == "byname":
-                            ret = commands.run(filename=main)
+                            ret = commands.run(filename=main, **kw)
                         else:
-                            ret = commands.run()
+                            ret = commands.run(**kw)
                     elif op["entry"] == "call":
-                        ret = commands.call("f", *op.get("args", []))
+                        if call_kwargs:
+                            kw["function_kwargs"] = call_kwargs
+                        ret = commands.call("f", *call_args, **kw)
                     elif op["entry"] == "callmissing":
                         ret = commands.call("verif_no_such_function")
                     else:
@@ -660,6 +715,10 @@ def run_history(ops):
                     patcher.stop()
             after = Snapshot()
             sys.settrace(None)
+            if op.get("group") in ("stop", "both") and sb._context_group_start:
+                sb.stop_grouping_context()
+            if op.get("inputs") is not None:
+                commands.clear_input()
             o = before.compare(after)
             o["dp"] = len(sb._current_patches)
             o["do"] = len(sb._current_stdout)
@@ -695,6 +754,8 @@ def run_history(ops):
     finally:
         sys.settrace(old_trace)
         sys.stdout, time.sleep = real_stdout, real_sleep
+        del sb._context_group_start[:]
+        MAIN_REPORT.format = old_format
     return obs
 
 
